@@ -106,11 +106,31 @@ def pybind_options(rng, m, allow_ignore=False):
     return dict(top=top, boost=boost, subs=subs, tpl=tpl, ignore=[], module_name=rng.choice(["mymod", "gtsam_py"]))
 
 
+def class_cpp_names(text):
+    """C++ names of the instantiated classes / declarations (from the model's instantiation)"""
+    out = model_call("icpp", text)
+    names = []
+    for l in out.split("\n"):
+        if l.startswith(("C ", "D ")):
+            f = l.split(" | ")
+            if len(f) > 1:
+                names.append(f[1])
+    return names
+
+
 def pybind_case(idx, payload):
     seed, cfg_kw = payload
     rng, m, text = gen_coherent(seed, idx, cfg_kw, style='space')
     o = pybind_options(rng, m)
     d = fw.worker_driver()
+    if rng.random() < 0.4:
+        names = class_cpp_names(text)
+        if names:
+            k = rng.randint(1, min(3, len(names)))
+            multi = [n for n in names if ", " in n]
+            o["ignore"] = rng.sample(names, k) + (rng.sample(multi, 1) if multi and rng.random() < 0.7 else [])
+            if rng.random() < 0.3:
+                o["ignore"].append("not::AClass")
     a = impl_pybind(text, o["tpl"], o["module_name"], o["top"], o["boost"], o["ignore"], o["subs"])
     b = model_pybind(d, text, o["tpl"], o["module_name"], o["top"], o["boost"], o["ignore"], o["subs"])
     r = dict(idx=idx, text=text, opts={k: v for k, v in o.items() if k != "tpl"}, tpl_kind="tests" if o["tpl"] != TPL_MIN else "min",
